@@ -5,6 +5,7 @@ from __future__ import annotations
 import ast
 from typing import Dict, List, Optional, Set, Tuple
 
+from ..cfg import node_calls, path_str
 from ..core import AnalysisError, Func, const_str, norm, opcode_member, short, walk_no_nested
 from ..facts import find_chains
 from ..util import guards_of, raises_in, try_handlers_enclosing
@@ -241,11 +242,43 @@ def rule_regex_error_conversion(ctx, rep, rid_c: str, rid_m: str) -> None:
             rep.ok(rid_m, key, {"converted_to": cls})
 
 
+def _budgeted_steps(ctx, comp) -> Tuple[Set[int], Optional[str]]:
+    """Functions of the regex compiler that charge a compile-step budget before doing anything else:
+    `self.N += 1; if self.N > CONST: raise RegExpError`, plus functions that call one on every path."""
+    from .limits import pollers
+
+    base = None
+    why = None
+    for f in ctx.tree.funcs:
+        if f.module is not comp or f.cls is None:
+            continue
+        body = [st for st in f.body() if not (isinstance(st, ast.Expr) and isinstance(st.value, ast.Constant))]
+        if len(body) >= 2 and isinstance(body[0], ast.AugAssign) and isinstance(body[0].op, ast.Add) and isinstance(body[1], ast.If):
+            ctr = norm(body[0].target)
+            t = body[1].test
+            if isinstance(t, ast.Compare) and len(t.ops) == 1 and isinstance(t.ops[0], (ast.Gt, ast.GtE)) and norm(t.left) == ctr and raises_in(body[1].body, "RegExpError"):
+                r = t.comparators[0]
+                val = r.value if isinstance(r, ast.Constant) else None
+                if val is None and f.cls is not None:
+                    for st in f.cls.node.body:
+                        if isinstance(st, ast.Assign) and isinstance(st.targets[0], ast.Name) and st.targets[0].id == norm(r).split(".")[-1] and isinstance(st.value, ast.Constant):
+                            val = st.value.value
+                if isinstance(val, int) and 100 <= val <= 10 ** 7:
+                    # the counter must be reset only at the start of a compilation (never inside the recursion)
+                    resets = [g for g in ctx.tree.funcs if g.module is comp and g is not f and any(isinstance(n, ast.Assign) and any(norm(x) == ctr for x in n.targets) for n in g.own_nodes())]
+                    if all(g.name in ("__init__", "compile") for g in resets):
+                        base = f
+                        why = f"{f.qual} charges {ctr} against {val} before compiling any node"
+    if base is None:
+        return set(), None
+    return pollers(ctx, base), why
+
+
 def rule_bounded_compilation(ctx, rep, rid: str) -> None:
-    rep.rule(rid, "every repetition the regex compiler unrolls (range(count) over a quantifier bound) is bounded by a checked constant that raises RegExpError", floor=2)
+    rep.rule(rid, "every repetition the regex compiler unrolls (range(count) over a quantifier bound) is bounded: either the count is checked against a constant (RegExpError), or every iteration passes through a compile step that charges a bounded budget (so bodies that emit nothing are bounded too)", floor=2)
     comp = ctx.tree.mod("regex.compiler")
     par = ctx.tree.mod("regex.parser")
-    # is there any bound check on quantifier counts in the parser or compiler?
+
     def has_bound(mod) -> Optional[str]:
         for f in ctx.tree.funcs:
             if f.module is not mod:
@@ -258,6 +291,7 @@ def rule_bounded_compilation(ctx, rep, rid: str) -> None:
         return None
 
     bound = has_bound(par) or has_bound(comp)
+    steps, why = _budgeted_steps(ctx, comp)
     for f in ctx.tree.funcs:
         if f.module is not comp:
             continue
@@ -266,14 +300,22 @@ def rule_bounded_compilation(ctx, rep, rid: str) -> None:
                 arg = norm(n.iter.args[0]) if n.iter.args else ""
                 if "count" not in arg and "min" not in arg and "max" not in arg:
                     continue
-                emits = any(isinstance(c, ast.Call) and isinstance(c.func, ast.Attribute) and c.func.attr.startswith("_compile") for s in n.body for c in ast.walk(s))
-                if not emits:
-                    continue
                 key = f"{f.qual}:range({arg})"
                 if bound:
                     rep.ok(rid, key, {"bound": bound})
-                else:
-                    rep.bad(rid, key, f"{f.qual} unrolls the body range({arg}) times with no upper bound on the quantifier count anywhere in the regex parser or compiler: `a{{99999999}}` allocates without limit before any deadline poll", f"{f.module.rel}:{n.lineno}")
+                    continue
+                if steps:
+                    cfg = ctx.facts.cfg(f)
+                    head = cfg.loop_head[id(n)]
+                    within = cfg.loop_nodes[id(n)]
+                    blocked = {x.id for x in cfg.nodes if x.id in within and node_calls(x, lambda c: bool(ctx.cg.site_of_call.get(id(c)) and ctx.cg.site_of_call[id(c)].kind == "resolved" and any(id(t) in steps for t in ctx.cg.site_of_call[id(c)].targets)))}
+                    p = cfg.path_avoiding(head.id, lambda x: x.id == head.id, blocked, within, start_succ=True)
+                    if p is None:
+                        rep.ok(rid, key, {"budget": why})
+                        continue
+                    rep.bad(rid, key, f"{f.qual} unrolls range({arg}) and an iteration path [{path_str(p)}] does not pass a budgeted compile step: the loop runs as many times as the pattern says", f"{f.module.rel}:{n.lineno}")
+                    continue
+                rep.bad(rid, key, f"{f.qual} unrolls the body range({arg}) times with no upper bound on the quantifier count and no compile-step budget anywhere in the regex parser or compiler: `a{{99999999}}` allocates without limit before any deadline poll", f"{f.module.rel}:{n.lineno}")
 
 
 def rule_zero_width_guard(ctx, rep, rid: str) -> None:
